@@ -111,7 +111,7 @@ def build_wf(c, cls, t):
     return cat(*(parts + [rest])), fields, enc_len, rest
 
 
-@harness("C17", "frame.wf", functions=CTOR_FUNCS, cases=CASES)
+@harness(["C17", "C02"], "frame.wf", functions=CTOR_FUNCS, cases=CASES)
 def h_wf(c, cls, t):
     payload, fields, enc_len, rest = build_wf(c, cls, t)
     src = c.opaque("src_packet")
@@ -387,7 +387,7 @@ def _parse_loop(c, orig, frames_havoc=None, extra_inv=None):
     c.loop(QF + ".parse_frames", "while len(payload) != 0", invariant=inv, decreases=lambda e: len_(e.payload), havoc=hv)
 
 
-@harness("C17", "parse_frames.any", functions=[QF + ".parse_frames"])
+@harness(["C17", "C02"], "parse_frames.any", functions=[QF + ".parse_frames"])
 def h_parse_any(c):
     """arbitrary bytes: the parser terminates (variant len(payload), strictly decreasing because every
     constructor contract gives length >= 1), the remaining input is always a suffix of the packet, the class
@@ -504,7 +504,7 @@ def rfc_split(b):
     return out
 
 
-@harness("C17", "parse_frames.wf", functions=[QF + ".parse_frames"])
+@harness(["C17", "C02"], "parse_frames.wf", functions=[QF + ".parse_frames"])
 def h_parse_wf(c):
     """orig = F_0 ++ ... ++ F_{n-1}, every F_i a well-formed frame (n symbolic; ghost pos(i) = offset of
     F_i, kcls(i) its class).  Then parse_frames raises nothing and returns exactly n frames, frame i being
